@@ -139,11 +139,32 @@ def run_lines(exe, lines, timeout=600, mem_kb=8 * 1024 * 1024, per_line_timeout=
         todo = todo[len(got) + 1:]
     return answers
 
+def run_parallel(exe, lines, jobs=None, **kw):
+    """split the request lines over several processes (answers stay in order)"""
+    lines = list(lines)
+    jobs = jobs or int(os.environ.get("QCO_JOBS", "14"))
+    if len(lines) < 64 or jobs <= 1:
+        return run_lines(exe, lines, **kw)
+    from concurrent.futures import ThreadPoolExecutor
+    # contiguous blocks, balanced by total request size
+    total = sum(len(l) + 50 for l in lines)
+    target = total / jobs
+    blocks, cur, acc = [], [], 0
+    for l in lines:
+        cur.append(l); acc += len(l) + 50
+        if acc >= target and len(blocks) < jobs - 1:
+            blocks.append(cur); cur, acc = [], 0
+    if cur:
+        blocks.append(cur)
+    with ThreadPoolExecutor(max_workers=len(blocks)) as ex:
+        outs = list(ex.map(lambda b: run_lines(exe, b, **kw), blocks))
+    return [a for o in outs for a in o]
+
 def harness(lines, **kw):
-    return run_lines(HARNESS, lines, **kw)
+    return run_parallel(HARNESS, lines, **kw)
 
 def driver(lines, **kw):
-    return run_lines(DRIVER, lines, **kw)
+    return run_parallel(DRIVER, lines, **kw)
 
 # ------------------------------------------------------------------------------------------
 # audit of the property theorems
